@@ -199,6 +199,49 @@ def family_rec(ctx, case):
     ctx.evaluations += n - 1
 
 
+def loop_depth_cases():
+    """a never-ending loop placed under every chain (length <= 3) of CALL / EVAL / IF / TRY / EXCEPT levels"""
+    out = []
+    loop = op('TRUE') + op('LOOP') + blk(op('NOT') + op('NOT'))
+    kinds = ('CALL', 'EVAL', 'IF', 'TRY', 'EXCEPT')
+    for d in range(0, 4):
+        for ch in itertools.product(kinds, repeat=d):
+            inner = loop
+            defs = b''
+            for lvl, k in enumerate(reversed(ch)):
+                if k == 'CALL':
+                    h = bytes([0x40 + lvl])
+                    inner = op('DEF') + h + blk(inner) + op('CALL') + h
+                elif k == 'EVAL':
+                    inner = P(inner) + op('EVAL')
+                else:
+                    inner = through(k, inner)
+            out.append(('>'.join(ch) or 'top', inner))
+    return out
+
+
+def family_loop_depth(ctx, case):
+    name, script = case
+    n = 0
+    for cl in (1, 2, 3, 5, 16):
+        limits = (64, 1024, cl)
+        n += 1
+        ctx.state((script, limits))
+        mon = check_run(ctx, script, limits, {'family': 'A3 loops at call depth', 'under': name.split('>')[-1]})
+        if mon.max_loop_iters > cl:
+            ctx.violation({'family': 'A3 loops at call depth', 'invariant': 'loop body ran more often than the call-stack limit',
+                           'under': name.split('>')[-1]}, f'loop under {name} limits {limits}: {mon.max_loop_iters} iterations')
+        # the same script as a later script of run_auth_scripts after earlier scripts spent call budget
+        spend = op('DEF') + b'\x7f' + blk(b'') + (op('CALL') + b'\x7f') * min(cl - 1, 3)
+        mon2, exc2, _, _ = monitor.run_monitored(spend + script, limits, cache=CACHE0)
+        ctx.ran()
+        if mon2.max_loop_iters > cl:
+            ctx.violation({'family': 'A3 loops at call depth', 'invariant': 'loop body ran more often than the call-stack limit',
+                           'under': 'after earlier calls'}, f'loop under {name} after {min(cl - 1, 3)} calls, limits {limits}: '
+                          f'{mon2.max_loop_iters} iterations')
+    ctx.evaluations += n - 1
+
+
 def family_b(ctx, names):
     """every byte-prefix of the program (truncated operands) under the default limits"""
     lim = (1024, 1024, 128)
@@ -377,6 +420,8 @@ def blocks(tier, seed):
               nshards=128),
         Block('A2_recursion_through_constructs', recursion_cases(), family_rec,
               'unbounded CALL / self-EVAL recursion routed through every construct kind and pair of kinds x call-stack limits 1,2,3,4,16', nshards=64),
+        Block('A3_loops_at_call_depth', loop_depth_cases(), family_loop_depth,
+              'a never-ending loop under every chain (<= 3) of CALL/EVAL/IF/TRY/EXCEPT levels x call-stack limits 1,2,3,5,16', nshards=64),
         Block('B_truncations', pairs, family_b, 'every byte-prefix of every <=2 statement program', nshards=64),
         Block('D_huge_operands', huge_cases(), family_d, 'count/size/index operands from stack or tape x huge values, tracemalloc peak', nshards=32),
         Block('E_deep_nesting_recursion', [family_e_cases(tier)], family_e, 'nesting depth {1,8,64,250} x recursion on the bare VM (fresh process)', nshards=1),
